@@ -521,4 +521,104 @@ mod proofs {
     fn z9_fgt() { let a: f64 = kani::any(); let b: f64 = kani::any();
         let r = h::gt(Value::Float(a), Value::Float(b)); assert!(matches!(&r, Ok(Value::Bool(x)) if *x == (a > b))); std::mem::forget(r);
         let r = h::neg(Value::Float(a)); assert!(matches!(&r, Ok(Value::Float(x)) if x.to_bits() == (a.to_bits() ^ (1u64 << 63)))); std::mem::forget(r); }
+
+    fn dec0() -> Decimal { Decimal::from_parts(kani::any(), kani::any(), kani::any(), kani::any(), 0) }
+    #[kani::proof] #[kani::unwind(2)]
+    fn d1_dec_add_scale0() {
+        let a = dec0(); let b = dec0();
+        let res = h::add(Value::Decimal(a), Value::Decimal(b));
+        std::mem::forget(res);
+    }
+    #[kani::proof] #[kani::unwind(2)]
+    fn d2_dec_mul_scale0() {
+        let a = dec0(); let b = dec0();
+        let res = h::mult(Value::Decimal(a), Value::Decimal(b));
+        std::mem::forget(res);
+    }
+    #[kani::proof] #[kani::unwind(2)]
+    fn d3_dec_gt_scale0() {
+        let a = dec0(); let b = dec0();
+        let res = h::gt(Value::Decimal(a), Value::Decimal(b));
+        assert!(matches!(&res, Ok(Value::Bool(_))));
+        std::mem::forget(res);
+    }
+    #[kani::proof] #[kani::unwind(2)]
+    fn d4_dec_neg_floor() {
+        let a = any_decimal();
+        let res = h::neg(Value::Decimal(a));
+        assert!(matches!(&res, Ok(Value::Decimal(x)) if x.mantissa() == -a.mantissa() && x.scale() == a.scale()));
+        std::mem::forget(res);
+    }
+
+    static mut HIT: u8 = 0;
+    fn st_dt_add(a: DateTime<Utc>, _d: TimeDelta) -> DateTime<Utc> { unsafe { HIT = 1; } a }
+    #[kani::proof] #[kani::unwind(2)]
+    fn k1_stub_dt_add() {
+        let a = any_datetime(); let d = any_duration();
+        let r = h::add(Value::DateTime(a), Value::Duration(d));
+        // real chrono on both sides: differential against checked_add_signed
+        kani::assume(a.checked_add_signed(d).is_some());
+        assert!(matches!(&r, Ok(Value::DateTime(x)) if Some(*x) == a.checked_add_signed(d)));
+        std::mem::forget(r);
+    }
+    fn st_dec_pcmp(_a: &Decimal, _b: &Decimal) -> Option<core::cmp::Ordering> { unsafe { HIT = 2; } let k: u8 = kani::any(); Some(if k == 0 { core::cmp::Ordering::Less } else if k == 1 { core::cmp::Ordering::Equal } else { core::cmp::Ordering::Greater }) }
+    #[kani::proof] #[kani::unwind(2)]
+    #[kani::stub(rust_decimal::ops::cmp_impl, st_dec_cmp_impl)]
+    fn k2_stub_dec_cmp() {
+        let a = any_decimal(); let b = any_decimal();
+        let r = h::gt(Value::Decimal(a), Value::Decimal(b));
+        assert!(unsafe { HIT } == 2);
+        assert!(matches!(&r, Ok(Value::Bool(_))));
+        std::mem::forget(r);
+    }
+    fn st_dec_cmp_impl(_a: &Decimal, _b: &Decimal) -> core::cmp::Ordering { unsafe { HIT = 2; } let k: u8 = kani::any(); if k == 0 { core::cmp::Ordering::Less } else if k == 1 { core::cmp::Ordering::Equal } else { core::cmp::Ordering::Greater } }
+    fn st_dec_round(a: &Decimal) -> Decimal { unsafe { HIT = 3; } *a }
+    #[kani::proof] #[kani::unwind(2)]
+    #[kani::stub(rust_decimal::Decimal::round, st_dec_round)]
+    fn k3_stub_dec_round() {
+        let a = any_decimal();
+        let r = h::round(Value::Decimal(a));
+        assert!(unsafe { HIT } == 3);
+        std::mem::forget(r);
+    }
+    fn st_f64_from_str(_s: &str) -> Result<f64, core::num::ParseFloatError> { unsafe { HIT = 4; } Ok(kani::any()) }
+    #[kani::proof] #[kani::unwind(3)]
+    #[kani::stub(<f64 as core::str::FromStr>::from_str, st_f64_from_str)]
+    fn k4_stub_f64_from_str() {
+        let r = ph::parse_float_value("f1.5");
+        assert!(unsafe { HIT } == 4);
+        assert!(matches!(&r, Ok(Value::Float(_))));
+        std::mem::forget(r);
+    }
+    fn st_i128_radix(_s: &str, radix: u32) -> Result<i128, core::num::ParseIntError> { unsafe { HIT = 5 + radix as u8; } Ok(kani::any()) }
+    #[kani::proof] #[kani::unwind(3)]
+    #[kani::stub(i128::from_str_radix, st_i128_radix)]
+    fn k5_stub_i128_radix() {
+        let r = ph::parse_hex_int_value("0xff");
+        assert!(unsafe { HIT } == 21);
+        std::mem::forget(r);
+    }
+
+    static mut REC_D: Option<TimeDelta> = None;
+    fn st_ndt_add(a: chrono::NaiveDateTime, d: TimeDelta) -> Option<chrono::NaiveDateTime> { unsafe { HIT = 9; REC_D = Some(d); } Some(a) }
+    #[kani::proof] #[kani::unwind(2)]
+    #[kani::stub(chrono::NaiveDateTime::checked_add_signed, st_ndt_add)]
+    fn k6_stub_ndt_add() {
+        let a = any_datetime(); let d = any_duration();
+        let r = h::add(Value::DateTime(a), Value::Duration(d));
+        assert!(unsafe { HIT } == 9);
+        assert!(unsafe { REC_D } == Some(d));
+        assert!(matches!(&r, Ok(Value::DateTime(x)) if *x == a));
+        std::mem::forget(r);
+    }
+    fn st_td_sub(a: TimeDelta, b: TimeDelta) -> TimeDelta { unsafe { HIT = 10; } let _ = b; a }
+    #[kani::proof] #[kani::unwind(2)]
+    #[kani::stub(<chrono::TimeDelta as core::ops::Sub<chrono::TimeDelta>>::sub, st_td_sub)]
+    fn k7_stub_td_sub() {
+        let a = any_duration(); let b = any_duration();
+        let r = h::sub(Value::Duration(a), Value::Duration(b));
+        assert!(unsafe { HIT } == 10);
+        assert!(matches!(&r, Ok(Value::Duration(x)) if *x == a));
+        std::mem::forget(r);
+    }
 }
